@@ -6,6 +6,7 @@ PROP = "C14"
 THEOREM_FILE = "Props/C14.v"
 EXTRA_THEOREM_FILES = ["Props/C14_src.v"]     # source tie: translated source = model (DESIGN 5.1b)
 EXTRA_THEOREM_FILES += ["Props/C14_src_ctor.v"]      # source tie of IPAddress.__init__ (int / copy branches)
+EXTRA_THEOREM_FILES.append("Props/C14_code.v")     # (CODA) code-level theorems: the property about the regenerated definitions
 RULE = ("13 operators (+ radd - rsub += -= | & ^ << >>) x both families x receiver values (0, 1, 2, max-2..max, "
         "2^31+-1, 2^32+-1, 2^(w-1)+-1, 2^k, random dense/sparse) x operands (0, +-1, +-2, +-2^31, +-2^32, +-2^127, "
         "+-2^128 and their +-1 neighbours, +-max, operands landing the result exactly on -1, 0, 1, max-1, max, max+1, "
